@@ -199,6 +199,44 @@ func mineLiterals(repo string, dirs []string) (ints []uint64, seqs [][]byte, str
 	return
 }
 
+// mineFileInts collects, per source file, the distinct integer literals above 9 that
+// occur in it (files with more than 48 of them are tables, not decisions, and skipped).
+func mineFileInts(repo string, dirs []string) map[string][]uint64 {
+	out := map[string][]uint64{}
+	for _, d := range dirs {
+		ents, err := os.ReadDir(filepath.Join(repo, d))
+		if err != nil {
+			continue
+		}
+		for _, e := range ents {
+			n := e.Name()
+			if e.IsDir() || !strings.HasSuffix(n, ".go") || strings.HasSuffix(n, "_test.go") {
+				continue
+			}
+			f, err := parser.ParseFile(token.NewFileSet(), filepath.Join(repo, d, n), nil, 0)
+			if err != nil {
+				continue
+			}
+			seen := map[uint64]bool{}
+			var vs []uint64
+			ast.Inspect(f, func(nd ast.Node) bool {
+				if bl, ok := nd.(*ast.BasicLit); ok && bl.Kind == token.INT {
+					if v, err := strconv.ParseUint(strings.ReplaceAll(bl.Value, "_", ""), 0, 64); err == nil && v > 9 && !seen[v] {
+						seen[v] = true
+						vs = append(vs, v)
+					}
+				}
+				return true
+			})
+			if len(vs) > 0 && len(vs) <= 48 {
+				sort.Slice(vs, func(i, j int) bool { return vs[i] < vs[j] })
+				out[filepath.ToSlash(filepath.Join(d, n))] = vs
+			}
+		}
+	}
+	return out
+}
+
 // mineGroups collects, per function, the short string literals that occur in it: the
 // tokens a hand-written parser of structured text looks for (separators, labels, suffixes)
 // live together in one function, and inputs built from permutations of exactly those
@@ -311,6 +349,26 @@ func main() {
 				b.WriteString(", ")
 			}
 			fmt.Fprintf(&b, "%q", s)
+		}
+		b.WriteString("},\n")
+	}
+	b.WriteString("}\n\n// integer literals above 9 per source file\nvar DictFileInts = map[string][]uint64{\n")
+	fi := mineFileInts(repo, []string{".", "nasType", "nasConvert", "security", "uePolicyContainer"})
+	var fnames []string
+	for n := range fi {
+		if strings.HasPrefix(n, "nasType/NAS_") {
+			continue // generated accessors: masks and shifts only
+		}
+		fnames = append(fnames, n)
+	}
+	sort.Strings(fnames)
+	for _, n := range fnames {
+		fmt.Fprintf(&b, "\t%q: {", n)
+		for i, v := range fi[n] {
+			if i > 0 {
+				b.WriteString(", ")
+			}
+			fmt.Fprintf(&b, "%d", v)
 		}
 		b.WriteString("},\n")
 	}
